@@ -6,6 +6,7 @@ import av1parse as ap, streaminfo
 
 ID = "C02"
 LEVEL = "exploration"
+TAG_KEYS = True   # violation keys get the configuration feature tag appended (engine.feature_tag)
 RULE = ("Hypothesis draws (configuration, content, N) biased to GOP shapes with hidden frames / show-existing / several key frames; every "
         "packet is parsed with a parser written from the AV1 specification: TD first and only once, OBU header bits, leb128 sizes tiling the "
         "packet, allowed OBU types, exactly one displayed frame and it is last, sequence header before the first frame and in every TU "
